@@ -54,4 +54,65 @@ pub fn get(id: &str) -> Option<CheckDef> {
     })
 }
 
-pub fn emit_corpus(_dir: &Path) {}
+/// seed corpora for the fuzz targets, emitted from the reference model (nothing is stored in git)
+pub fn emit_corpus(dir: &Path, target: &str) {
+    use crate::refmodel::*;
+    let _ = std::fs::create_dir_all(dir);
+    let put = |name: String, bytes: &[u8]| {
+        let _ = std::fs::write(dir.join(name), bytes);
+    };
+    match target {
+        "name" => {
+            put("n0".into(), b"\x03www\x07example\x03com\x00\x01a\xc0\x04\xc0\x11");
+            put("n1".into(), &[0xc0, 0x00]);
+            put("n2".into(), &[63; 64]);
+            let mut long = Vec::new();
+            for _ in 0..4 {
+                long.push(63);
+                long.extend_from_slice(&[b'x'; 63]);
+            }
+            long.push(0);
+            long.extend_from_slice(&[0xc0, 0x00]);
+            put("n3".into(), &long);
+        }
+        "mdns_datagram" => {
+            let frame = |msgs: &[Vec<u8>]| -> Vec<u8> {
+                let mut out = Vec::new();
+                for m in msgs {
+                    out.extend_from_slice(&(m.len() as u16).to_be_bytes());
+                    out.extend_from_slice(m);
+                }
+                out
+            };
+            let q = |name: &[&str], qtype: u16| encode_message(&APacket { id: 5, questions: vec![AQuestion { name: AName::from_strs(name), qtype, qclass: 1, unicast: true }], ..Default::default() }, &EncOpts::plain());
+            let mut resp = APacket { id: 0, flags: 0x8400, ..Default::default() };
+            for (i, r) in c13::catalogue().into_iter().enumerate() {
+                let mut r = r;
+                r.name = AName::from_strs(&[["peer", "x", "y"][i % 3], "_srv", "_tcp", "local"]);
+                resp.answers.push(r);
+            }
+            put("d0".into(), &frame(&[q(&["canary", "local"], 1), q(&["_my", "local"], 255), q(&["local"], 33)]));
+            put("d1".into(), &frame(&[encode_message(&resp, &EncOpts::compressed()), q(&["_srv", "_tcp", "local"], 255)]));
+            put("d2".into(), &frame(&[vec![], vec![0; 5], vec![0xff; 12]]));
+        }
+        "build_rt" => {
+            put("b0".into(), &[0u8; 64]);
+            put("b1".into(), &(0..=255u8).collect::<Vec<_>>());
+        }
+        _ => {
+            for (i, (_label, m)) in c01::base_messages(1).into_iter().enumerate() {
+                put(format!("base{:03}", i), &m);
+            }
+            let repo = std::env::var("VERIF_REPO").unwrap_or_else(|_| "/repo".into());
+            if let Ok(rd) = std::fs::read_dir(Path::new(&repo).join("simple-dns/samples/zonefile")) {
+                for e in rd.flatten() {
+                    if let Ok(b) = std::fs::read(e.path()) {
+                        let mut m = vec![0, 1, 0x80, 0, 0, 0, 0, 1, 0, 0, 0, 0];
+                        m.extend_from_slice(&b);
+                        put(format!("sample-{}", e.file_name().to_string_lossy()), &m);
+                    }
+                }
+            }
+        }
+    }
+}
